@@ -51,6 +51,7 @@ def plan(tier, seed):
             # many variables, few used levels (level maps with holes)
             dict(kind='bdd', nmax=10, init_vars=9, semantic=False),
             dict(kind='bdd', nmax=12, init_vars=10, semantic=False),
+            dict(kind='bdd', nmax=15, init_vars=13, semantic=False),
             # managers constructed from a levels dict listed in another
             # order, or by copy_vars from a reordered manager
             dict(kind='bdd', nmax=5, order=['c', 'a', 'd', 'b'],
